@@ -141,3 +141,19 @@ package runtime
 //@ ensures[C13,C14] forall k mathint :: 0 <= k && k < ncalls(RunStmt) ==> !callobs(RunStmt, k, exited)
 //@ loop 1
 //@ invariant[C13,C14] forall k mathint :: 0 <= k && k < ncalls(RunStmt) ==> !callobs(RunStmt, k, exited)
+
+// ---- C03: if / elif / else runs exactly the first branch whose condition is truthy ------------------
+// conditions are evaluated in list order; every condition before the last one evaluated was falsy; at
+// most one block runs: the block of the last condition evaluated when that one is truthy, otherwise - only
+// after every condition was evaluated and found falsy - the else block
+//@ func RunIfElseStmt
+//@ ensures[C03] ncalls(RunStmts) <= 1
+//@ ensures[C03] forall k mathint :: 0 <= k && k < ncalls(RunStmt) ==> callarg(RunStmt, k, 1) == stmt.IfList[k].Condition
+//@ ensures[C03] forall k mathint :: 0 <= k && k < ncalls(condTrue) ==> callarg(condTrue, k, 0) == callres(RunStmt, k, 0) && callarg(condTrue, k, 1) == callres(RunStmt, k, 1)
+//@ ensures[C03] forall k mathint :: 0 <= k && k < ncalls(condTrue) - 1 ==> !callres(condTrue, k, 0)
+//@ ensures[C03] ncalls(RunStmts) == 1 && ncalls(condTrue) >= 1 && callres(condTrue, ncalls(condTrue) - 1, 0) ==> callarg(RunStmts, 0, 1) == stmt.IfList[ncalls(condTrue) - 1].Block.Stmts
+//@ ensures[C03] ncalls(RunStmts) == 1 && !(ncalls(condTrue) >= 1 && callres(condTrue, ncalls(condTrue) - 1, 0)) ==> stmt.Else != nil && callarg(RunStmts, 0, 1) == stmt.Else.Stmts && ncalls(condTrue) == tomath(len(stmt.IfList))
+//@ loop 1
+//@ invariant[C03] ncalls(RunStmts) == 0 && ncalls(RunStmt) == tomath(rangeindex) + 1 && ncalls(condTrue) == tomath(rangeindex) + 1
+//@ invariant[C03] forall k mathint :: 0 <= k && k < ncalls(condTrue) ==> !callres(condTrue, k, 0) && callarg(condTrue, k, 0) == callres(RunStmt, k, 0) && callarg(condTrue, k, 1) == callres(RunStmt, k, 1)
+//@ invariant[C03] forall k mathint :: 0 <= k && k < ncalls(RunStmt) ==> callarg(RunStmt, k, 1) == stmt.IfList[k].Condition
